@@ -331,7 +331,7 @@ package clickhouse_planner
 // A label filter may be evaluated on the stored labels of the series ("simple") only
 // while no earlier stage has changed the labels: the marking stops at the first
 // parser, drop or label_format stage ({a="b"} | drop c | c="x" must see c dropped).
-//@ func (*planner).analyzeScript [C07]
+//@ func (*planner).analyzeScript [C07,C08]
 //@   flag checks=-index,-assert
 //@   loop 1:
 //@     invariant nothing-before-changes-the-labels: forall j int :: 0 <= j && j <= rangeindex && j < len(pipeline) ==> isnil(pipeline[j].Parser) && isnil(pipeline[j].Drop) && isnil(pipeline[j].LabelFormat)
